@@ -376,7 +376,8 @@ def r09_5(ctx):
 
 def rules(ctx):
     from . import c06
-    out = [r09_1, r09_2, r09_3, r09_5, c07.r07_3, c06.r06_1]
+    out = [r09_1, r09_2, r09_3, r09_5, c07.r07_3, c06.r06_1,
+           __import__('vjsx.rules.c10', fromlist=['x']).field_ratchet('what happens to non-JSX code (resolveType injection, idempotence) must not depend on state carried over from earlier code')]
     if ctx.tier == "thorough":
         out.append(hir_mir_registry_writers)
     try:
